@@ -11,19 +11,15 @@ the C01 downstream invariant.
 namespace Px.Persist
 open Px Px.Relay Px.Conn Px.Parser
 
-abbrev AppRes := Phase × AppOut × Option (Kind × List Bytes) × Option Connect.Addr
-
 /-- the application step ran normally and stayed on the plain-HTTP path -/
 def smooth (a : AppRes) : Bool :=
-  (match a.2.1 with | .ok _ none false => true | _ => false) &&
-  (match a.2.2.1 with | none => true | some (k, _) => k == .http)
+  (match a.app with | .ok none none false => true | _ => false) &&
+  (match a.kind with | none => true | some k => k == .http)
 
 /-- bytes the step queued for the upstream -/
-def items (a : AppRes) : Bytes :=
-  (match a.2.2.1 with | some (_, ub) => ub.flatten | none => []) ++
-  (match a.2.1 with | .ok (some x) _ _ => x | _ => [])
+def items (a : AppRes) : Bytes := a.ups.flatten
 
-def conns (a : AppRes) : List Connect.Addr := match a.2.2.2 with | some x => [x] | none => []
+def conns (a : AppRes) : List Connect.Addr := match a.conn with | some x => [x] | none => []
 
 /-- the segments `handle_data` is given, in order -/
 def clientSegs (ticks : List Tick) : List Bytes :=
@@ -35,7 +31,7 @@ def segRun (cfg : Forward.Cfg) (ok : Bool) : Phase → List Bytes → Option (Ph
   | ph, [] => some (ph, [], [])
   | ph, x :: xs =>
     if smooth (appOf cfg ok ph x) then
-      (segRun cfg ok (appOf cfg ok ph x).1 xs).map
+      (segRun cfg ok (appOf cfg ok ph x).phase xs).map
         (fun r => (r.1, items (appOf cfg ok ph x) ++ r.2.1, conns (appOf cfg ok ph x) ++ r.2.2))
     else none
 
@@ -50,7 +46,7 @@ theorem segRun_append (cfg : Forward.Cfg) (ok : Bool) (ph : Phase) (a b : List B
     simp only [List.cons_append, segRun]
     split
     · rw [ih]
-      cases segRun cfg ok (appOf cfg ok ph x).1 xs with
+      cases segRun cfg ok (appOf cfg ok ph x).phase xs with
       | none => simp
       | some r =>
         simp only [Option.map_some, Option.bind_some]
@@ -61,50 +57,55 @@ theorem segRun_append (cfg : Forward.Cfg) (ok : Bool) (ph : Phase) (a b : List B
 
 /-- phase and relay state agree -/
 def PhaseOk (s : FSt) : Prop :=
-  (∃ p, s.phase = .first p ∧ s.rs.kind = .local ∧ U s.rs = []) ∨
+  (∃ p, s.phase = .first p ∧ s.rs.kind = .local) ∨
   (∃ req pipe, s.phase = .http req pipe ∧ s.rs.kind = .http)
 
-/-- shape of a smooth application step -/
-theorem appOf_smooth_first {cfg : Forward.Cfg} {ok : Bool} {p : Parser} {raw : Bytes}
-    (h : smooth (appOf cfg ok (.first p) raw) = true) :
-    (∃ p', appOf cfg ok (.first p) raw = (.first p', .ok none none false, none, none)) ∨
-    (∃ P a x, appOf cfg ok (.first p) raw = (.http P none, .ok none none false, some (.http, [x]), some a)) := by
-  unfold appOf at h ⊢
-  simp only at h ⊢
-  cases hp : parse Forward.pcfg p raw with
-  | error e => simp [hp, smooth] at h
-  | ok p' =>
-    simp only [hp] at h ⊢
-    by_cases hc : (p'.state != PState.complete) = true
-    · simp only [hc, if_true]; exact .inl ⟨p', rfl⟩
-    · simp only [hc, Bool.false_eq_true, if_false] at h ⊢
-      cases hf : firstComplete cfg ok p' with
-      | established a x => simp only [hf]; exact .inr ⟨p', a, x, rfl⟩
-      | tunnel a => simp [hf, smooth] at h
-      | reject resp a => simp [hf, smooth] at h
-      | raised => simp [hf, smooth] at h
-
-theorem appOf_http (cfg : Forward.Cfg) (ok : Bool) (req : Parser) (pipe : Option Parser) (raw : Bytes) :
-    appOf cfg ok (.http req pipe) raw = (.http req (pipeStep cfg pipe raw).1, (pipeStep cfg pipe raw).2, none, none) := rfl
-
-theorem smooth_app {a : AppRes} (h : smooth a = true) : ∃ toUp, a.2.1 = .ok toUp none false := by
+theorem smooth_app {a : AppRes} (h : smooth a = true) : a.app = .ok none none false := by
   unfold smooth at h
-  rcases a with ⟨ph, app, est, c⟩
-  cases app with
-  | raised => simp at h
+  cases ha : a.app with
+  | raised => simp [ha] at h
   | ok u cl close =>
-    cases cl <;> cases close <;> simp at h
-    exact ⟨u, rfl⟩
+    cases u <;> cases cl <;> cases close <;> simp [ha] at h
+    rfl
+
+/-- a smooth application step keeps phase and exchange kind in agreement -/
+theorem appOf_phaseKind (cfg : Forward.Cfg) (ok : Bool) (ph : Phase) (k : Kind) (raw : Bytes)
+    (hp : (∃ p, ph = .first p ∧ k = .local) ∨ (∃ req pipe, ph = .http req pipe ∧ k = .http))
+    (hs : smooth (appOf cfg ok ph raw) = true) :
+    (∃ p, (appOf cfg ok ph raw).phase = .first p ∧ (appOf cfg ok ph raw).kind.getD k = .local) ∨
+    (∃ req pipe, (appOf cfg ok ph raw).phase = .http req pipe ∧ (appOf cfg ok ph raw).kind.getD k = .http) := by
+  rcases hp with ⟨p, rfl, rfl⟩ | ⟨req, pipe, rfl, rfl⟩
+  · unfold appOf at hs ⊢
+    simp only at hs ⊢
+    cases hp : parse Forward.pcfg p raw with
+    | error e => simp [hp, smooth] at hs
+    | ok p' =>
+      simp only [hp] at hs ⊢
+      by_cases hc : (p'.state != PState.complete) = true
+      · simp only [hc, if_true]; exact .inl ⟨p', rfl, rfl⟩
+      · simp only [hc, Bool.false_eq_true, if_false] at hs ⊢
+        cases hf : firstComplete cfg ok p' with
+        | established a x =>
+          simp only [hf]
+          cases p'.buffer with
+          | none => exact .inr ⟨_, _, rfl, rfl⟩
+          | some rest => exact .inr ⟨_, _, rfl, rfl⟩
+        | tunnel a => simp [hf, smooth] at hs
+        | reject resp a => simp [hf, smooth] at hs
+        | raised => simp [hf, smooth] at hs
+  · exact .inr ⟨req, _, rfl, rfl⟩
 
 theorem PhaseOk.kind {s : FSt} (h : PhaseOk s) : s.rs.kind ≠ .tunnel := by
-  rcases h with ⟨_, _, hk, _⟩ | ⟨_, _, _, hk⟩ <;> rw [hk] <;> decide
+  rcases h with ⟨_, _, hk⟩ | ⟨_, _, _, hk⟩ <;> rw [hk] <;> decide
 
-/-- a round that leaves phase, kind and upstream stream alone keeps `PhaseOk` -/
-theorem PhaseOk.keep {s : FSt} (h : PhaseOk s) (rs' : St) (hk : rs'.kind = s.rs.kind) (hU : U rs' = U s.rs) :
+/-- a round that leaves phase and kind alone keeps `PhaseOk` -/
+theorem PhaseOk.keep {s : FSt} (h : PhaseOk s) (rs' : St) (hk : rs'.kind = s.rs.kind) :
     PhaseOk { s with rs := rs' } := by
-  rcases h with ⟨p, hph, hk', hU'⟩ | ⟨r, q, hph, hk'⟩
-  · exact .inl ⟨p, hph, by rw [hk]; exact hk', by rw [hU]; exact hU'⟩
+  rcases h with ⟨p, hph, hk'⟩ | ⟨r, q, hph, hk'⟩
+  · exact .inl ⟨p, hph, by rw [hk]; exact hk'⟩
   · exact .inr ⟨r, q, hph, by rw [hk]; exact hk'⟩
+
+theorem upAdd_none (k : Kind) : upAdd k none = [] := by unfold upAdd; split <;> rfl
 
 /-- one executor round of the connection in a benign round -/
 theorem fstep_benign (cfg : Forward.Cfg) (ok : Bool) (s : FSt) (t : Tick) (hp : PhaseOk s) (ha : Alive s.rs)
@@ -114,7 +115,7 @@ theorem fstep_benign (cfg : Forward.Cfg) (ok : Bool) (s : FSt) (t : Tick) (hp : 
     D (fstep cfg ok s t).1.rs = (fstep cfg ok s t).1.rs.recvU ∧
     (fstep cfg ok s t).1.rs.maxSend = s.rs.maxSend ∧
     ((∃ raw, t.cR = true ∧ segOf t.cRecv = some raw ∧
-        (fstep cfg ok s t).1.phase = (appOf cfg ok s.phase raw).1 ∧
+        (fstep cfg ok s t).1.phase = (appOf cfg ok s.phase raw).phase ∧
         U (fstep cfg ok s t).1.rs = U s.rs ++ items (appOf cfg ok s.phase raw) ∧
         (fstep cfg ok s t).1.connects = s.connects ++ conns (appOf cfg ok s.phase raw)) ∨
      ((t.cR = false ∨ segOf t.cRecv = none) ∧ (fstep cfg ok s t).1.phase = s.phase ∧
@@ -131,93 +132,78 @@ theorem fstep_benign (cfg : Forward.Cfg) (ok : Bool) (s : FSt) (t : Tick) (hp : 
       · rw [hseg] at hr; cases hr
       · exact hU
     rw [e]
-    exact ⟨h1, hp.keep _ h3 hU, h2, by show D (step s.rs t).1 = _; rw [h6, h5, hd], h4,
+    exact ⟨h1, hp.keep _ h3, h2, by show D (step s.rs t).1 = _; rw [h6, h5, hd], h4,
       .inr ⟨.inr rfl, rfl, hU, rfl⟩⟩
   · -- a segment is on offer
     obtain ⟨a, ha'⟩ : ∃ a, appOf cfg ok s.phase raw = a := ⟨_, rfl⟩
-    have hbt : benign { t with app := a.2.1 } = true := benign_app _ hb
+    have hbt : benign { t with app := a.app } = true := benign_app _ hb
     by_cases hcR : t.cR = true
     · have hsm : smooth a = true := by have := hs raw hcR hseg; rwa [ha'] at this
-      obtain ⟨toUp, happ⟩ := smooth_app hsm
-      obtain ⟨h1, h2, h3, h4, ⟨seg, h5, h6⟩, h7⟩ := step_benign s.rs { t with app := a.2.1 } hk ha hbt toUp
+      have happ := smooth_app hsm
+      obtain ⟨h1, h2, h3, h4, ⟨seg, h5, h6⟩, h7⟩ := step_benign s.rs { t with app := a.app } hk ha hbt none
         (fun _ _ _ => happ)
-      obtain ⟨hne, hC, hU⟩ : raw ≠ [] ∧ (step s.rs { t with app := a.2.1 }).1.recvC = s.rs.recvC ++ raw ∧
-          U (step s.rs { t with app := a.2.1 }).1 = U s.rs ++ upAdd s.rs.kind toUp := by
+      obtain ⟨hne, hC, hU⟩ : raw ≠ [] ∧ (step s.rs { t with app := a.app }).1.recvC = s.rs.recvC ++ raw ∧
+          U (step s.rs { t with app := a.app }).1 = U s.rs := by
         rcases h7 with ⟨raw', _, hr, hne, hC, hU⟩ | ⟨hidle, _, _⟩
         · have : segOf t.cRecv = some raw' := hr
           rw [hseg] at this
           cases this
-          exact ⟨hne, hC, hU⟩
+          rw [upAdd_none] at hU
+          exact ⟨hne, hC, by simpa using hU⟩
         · rcases hidle with h | h
           · rw [hcR] at h; cases h
           · have : segOf t.cRecv = none := h
             rw [hseg] at this; cases this
-      have hcons : ((step s.rs { t with app := a.2.1 }).1.recvC.length != s.rs.recvC.length &&
+      have hcons : ((step s.rs { t with app := a.app }).1.recvC.length != s.rs.recvC.length &&
           !(s.rs.kind == .http && s.rs.upstream.closed)) = true := by
         rw [hC, ha.upOpen]
         simp only [List.length_append, Bool.and_false, Bool.not_false, Bool.and_true, bne_iff_ne, ne_eq]
         have : 0 < raw.length := List.length_pos_iff.mpr hne
         omega
       have e : fstep cfg ok s t =
-          ({ phase := a.1,
-             rs := (match a.2.2.1 with
-               | some (k, ub) => { (step s.rs { t with app := a.2.1 }).1 with kind := k, upstream := { buffer := ub } }
-               | none => (step s.rs { t with app := a.2.1 }).1),
-             connects := s.connects ++ conns a }, (step s.rs { t with app := a.2.1 }).2) := by
+          ({ phase := a.phase,
+             rs := { (step s.rs { t with app := a.app }).1 with
+                       kind := a.kind.getD (step s.rs { t with app := a.app }).1.kind,
+                       upstream := { (step s.rs { t with app := a.app }).1.upstream with
+                         buffer := (step s.rs { t with app := a.app }).1.upstream.buffer ++ a.ups } },
+             connects := s.connects ++ conns a }, (step s.rs { t with app := a.app }).2) := by
         unfold fstep fstepWith
         rw [hseg]
         simp only [ha', if_true, hcons, Bool.not_true, Bool.false_eq_true, if_false]
         rfl
       rw [e, h1]
-      have hD : D (step s.rs { t with app := a.2.1 }).1 = (step s.rs { t with app := a.2.1 }).1.recvU := by
+      have hD : D (step s.rs { t with app := a.app }).1 = (step s.rs { t with app := a.app }).1.recvU := by
         rw [h6, h5, hd]
-      rcases hp with ⟨p, hph, hkl, hU0⟩ | ⟨req, pipe, hph, hkh⟩
-      · -- first-request phase
-        rw [hph] at ha'
-        have hUs : U (step s.rs { t with app := a.2.1 }).1 = [] := by rw [hU, hU0, hkl]; simp [upAdd]
-        rcases appOf_smooth_first (by rw [ha']; exact hsm) with ⟨p', he⟩ | ⟨P, ad, x, he⟩
-        · rw [ha'] at he
-          subst he
-          refine ⟨rfl, .inl ⟨p', rfl, by show (step s.rs _).1.kind = _; rw [h3]; exact hkl, hUs⟩, h2, hD, h4,
-            .inl ⟨raw, hcR, rfl, by rw [hph, ha'], ?_, by rw [hph, ha']⟩⟩
-          show U (step s.rs _).1 = _
-          rw [hUs, hU0, hph, ha']; simp [items]
-        · rw [ha'] at he
-          subst he
-          have hsu : (step s.rs { t with app := AppOut.ok none none false }).1.sentU = [] := by
-            have := hUs
-            simp only [U, List.append_eq_nil_iff] at this
-            exact this.1
-          refine ⟨rfl, .inr ⟨P, none, rfl, rfl⟩, ⟨h2.mustFlush, h2.readsTeared, rfl⟩, ?_, h4,
-            .inl ⟨raw, hcR, rfl, by rw [hph, ha'], ?_, by rw [hph, ha']⟩⟩
-          · simpa [D] using hD
-          · rw [hph, ha', hU0]
-            simp [U, hsu, items]
-      · -- established plain-HTTP exchange
-        rw [hph, appOf_http] at ha'
-        subst ha'
-        simp only at happ
-        refine ⟨rfl, .inr ⟨req, _, rfl, by show (step s.rs _).1.kind = _; rw [h3]; exact hkh⟩, h2, hD, h4,
-          .inl ⟨raw, hcR, rfl, by rw [hph, appOf_http], ?_, by rw [hph, appOf_http]⟩⟩
-        show U (step s.rs _).1 = _
-        rw [hU, hkh, hph, appOf_http]
-        simp only [items, happ, upAdd, if_true, List.nil_append]
-        cases toUp <;> rfl
+      have hpk := appOf_phaseKind cfg ok s.phase s.rs.kind raw
+        (by rcases hp with ⟨p, hph, hkl⟩ | ⟨r, q, hph, hkh⟩
+            · exact .inl ⟨p, hph, hkl⟩
+            · exact .inr ⟨r, q, hph, hkh⟩) (by rw [ha']; exact hsm)
+      rw [ha'] at hpk
+      refine ⟨rfl, ?_, ⟨h2.mustFlush, h2.readsTeared, h2.upOpen⟩, ?_, h4,
+        .inl ⟨raw, hcR, rfl, by rw [ha'], ?_, by rw [ha']⟩⟩
+      · rcases hpk with ⟨p, e1, e2⟩ | ⟨r, q, e1, e2⟩
+        · exact .inl ⟨p, e1, by show a.kind.getD (step s.rs _).1.kind = _; rw [h3]; exact e2⟩
+        · exact .inr ⟨r, q, e1, by show a.kind.getD (step s.rs _).1.kind = _; rw [h3]; exact e2⟩
+      · simpa [D] using hD
+      · rw [ha']
+        have : U (step s.rs { t with app := a.app }).1 = U s.rs := hU
+        simp only [U, items, List.flatten_append] at this ⊢
+        rw [← List.append_assoc, this]
     · have hcf : t.cR = false := by simpa using hcR
-      obtain ⟨h1, h2, h3, h4, ⟨seg, h5, h6⟩, h7⟩ := step_benign s.rs { t with app := a.2.1 } hk ha hbt none
+      obtain ⟨h1, h2, h3, h4, ⟨seg, h5, h6⟩, h7⟩ := step_benign s.rs { t with app := a.app } hk ha hbt none
         (fun _ hc _ => by rw [hcf] at hc; cases hc)
-      obtain ⟨hC, hU⟩ : (step s.rs { t with app := a.2.1 }).1.recvC = s.rs.recvC ∧
-          U (step s.rs { t with app := a.2.1 }).1 = U s.rs := by
+      obtain ⟨hC, hU⟩ : (step s.rs { t with app := a.app }).1.recvC = s.rs.recvC ∧
+          U (step s.rs { t with app := a.app }).1 = U s.rs := by
         rcases h7 with ⟨raw', hc, _⟩ | ⟨_, hC, hU⟩
         · rw [hcf] at hc; cases hc
         · exact ⟨hC, hU⟩
       have e : fstep cfg ok s t =
-          ({ s with rs := (step s.rs { t with app := a.2.1 }).1 }, (step s.rs { t with app := a.2.1 }).2) := by
+          ({ s with rs := (step s.rs { t with app := a.app }).1 }, (step s.rs { t with app := a.app }).2) := by
         unfold fstep fstepWith
         rw [hseg]
         simp only [ha', if_true, hC, bne_self_eq_false, Bool.false_and, Bool.not_false]
       rw [e]
-      exact ⟨h1, hp.keep _ h3 hU, h2, by show D (step s.rs _).1 = _; rw [h6, h5, hd], h4,
+      exact ⟨h1, hp.keep _ h3, h2, by show D (step s.rs _).1 = _; rw [h6, h5, hd], h4,
         .inr ⟨.inl hcf, rfl, hU, rfl⟩⟩
 
 theorem frun_cons_cont (cfg : Forward.Cfg) (ok : Bool) (s : FSt) (t : Tick) (ts : List Tick)
@@ -311,6 +297,6 @@ theorem frun_refines (cfg : Forward.Cfg) (ok : Bool) (ticks : List Tick) (s : FS
 /-- the fresh connection satisfies the invariants -/
 theorem finit_ok (m : Nat) : PhaseOk (finit m) ∧ Alive (finit m).rs ∧ D (finit m).rs = (finit m).rs.recvU ∧
     U (finit m).rs = [] ∧ (finit m).connects = [] :=
-  ⟨.inl ⟨_, rfl, rfl, rfl⟩, ⟨rfl, rfl, rfl⟩, rfl, rfl, rfl⟩
+  ⟨.inl ⟨_, rfl, rfl⟩, ⟨rfl, rfl, rfl⟩, rfl, rfl, rfl⟩
 
 end Px.Persist
